@@ -31,8 +31,9 @@
 (* it, symoffset = 1); a PT_LOAD layout (one segment; two segments with      *)
 (* different address - offset deltas; p_filesz < p_memsz; both; addresses    *)
 (* needing all bits of the class).  Build (hashed part chosen, symbol and     *)
-(* hash tables serialised), PlaceTables (file offsets), Addresses (virtual    *)
-(* addresses under the layout) and Encode finish the object, which is then    *)
+(* hash tables serialised), PlaceTables (file offsets), Segments (the PT_LOAD  *)
+(* entries), Addresses (virtual addresses), EncodeArray and Encode finish the *)
+(* object, and it is                                                         *)
 (* written as two images of the SAME object: WithSections (.dynsym, string table, hash sections,    *)
 (* .dynamic linked to the string table; variant "match": PT_DYNAMIC covers   *)
 (* .dynamic; "matchdecoy": likewise, but the real string table is not called *)
@@ -361,8 +362,8 @@ EncTags(x, P, ts) == CatAll([i \in 1..Len(ts) |-> Fix(W(TagDigits(x, ts[i])), Ws
 
 \* Writer, last three steps.  Build(so): the symbol table is complete - the symbols from `so` on are hashed (so = table
 \* length: none), the symbol and hash tables are serialised.  PlaceTables: file offsets and virtual addresses of all
-\* tables under the object's PT_LOAD layout.  Encode: the dynamic array with those addresses, the image.
-\* (Three actions rather than one: what an action stores in `mem` is a concrete value, whereas TLC re-evaluates a LET
+\* tables; Segments: the PT_LOAD entries of the object's layout; Addresses: the tables' virtual addresses.  EncodeArray: the dynamic array with those
+\* addresses.  Encode: the image.  (Several actions rather than one: what an action stores in `mem` is a concrete value, whereas TLC re-evaluates a LET
 \* definition at every use inside a function constructor.)
 SecCount(x) == Len(Order(x))
 NLoad(x) == IF x.layout \in {"two", "twobss"} THEN 2 ELSE 1
@@ -409,26 +410,37 @@ SecOf(x, m, ad, dyn, kind) ==
 Sections(x, m, ad, dyn) == LET ord == Order(x) IN [k \in 1..Len(ord) |-> SecOf(x, m, ad, dyn, ord[k])]
 \* the length of .shstrtab (Elf.tla writes it after the user sections)
 ShStrLen(x) == Len(StrTab([Im0 EXCEPT !.secs = Sections(x, [symb |-> <<>>, hb |-> <<>>, gb |-> <<>>, dynlen |-> 0], [k \in 1..SecCount(x) |-> Z], <<>>)]))
-Addresses ==
+Segments ==
   /\ phase = "placed"
+  /\ LET dend == mem.d0 + mem.dsum + ShStrLen(o)
+         loads == Loads(o, mem.offs[2], dend) IN               \* two segments: the first table alone in the first one
+     mem' = [f \in DOMAIN mem \cup {"dend", "loads"} |-> CASE f = "dend" -> dend [] f = "loads" -> loads [] OTHER -> mem[f]]
+  /\ phase' = "loaded"
+  /\ UNCHANGED <<o, rd>>
+Addresses ==
+  /\ phase = "loaded"
   /\ LET x == o   ix == Ix(o)   w == Ws(o)
-         dend == mem.d0 + mem.dsum + ShStrLen(o)
-         loads == Loads(o, mem.offs[2], dend)                  \* two segments: the first table alone in the first one
-         ad == [k \in 1..Len(mem.offs) |-> AddrOf(loads, mem.offs[k])]
+         loads == mem.loads
+         ad == [k \in 1..Len(mem.offs) |-> AddrOf(mem.loads, mem.offs[k])]
          P == [strtab |-> ad[ix.str], symtab |-> ad[ix.sym], hash |-> IF HasV(x) THEN ad[ix.hash] ELSE DZero(w),
                gnuhash |-> IF HasG(x) THEN ad[ix.gnu] ELSE DZero(w), decoy |-> IF HasDecoy(x) THEN ad[ix.decoy] ELSE Plus(ad[ix.str], 2),
                bss |-> Plus(loads[1].va, loads[1].fsz + 16)]
          pd == IF IsSplit(x) THEN ix.copy ELSE ix.dyn IN
-     mem' = [f \in DOMAIN mem \cup {"dend", "loads", "ad", "P", "pdyn"} |->
-               CASE f = "dend" -> dend [] f = "loads" -> loads [] f = "ad" -> ad [] f = "P" -> P
+     mem' = [f \in DOMAIN mem \cup {"ad", "P", "pdyn"} |->
+               CASE f = "ad" -> ad [] f = "P" -> P
                  [] f = "pdyn" -> [off |-> mem.offs[pd], size |-> mem.dynlen, index |-> Len(loads), sec |-> pd]
                  [] OTHER -> mem[f]]
   /\ phase' = "addressed"
   /\ UNCHANGED <<o, rd>>
-Encode ==
+EncodeArray ==
   /\ phase = "addressed"
+  /\ mem' = [f \in DOMAIN mem \cup {"dyn"} |-> IF f = "dyn" THEN EncTags(o, mem.P, AllTags(o)) ELSE mem[f]]
+  /\ phase' = "encoded"
+  /\ UNCHANGED <<o, rd>>
+Encode ==
+  /\ phase = "encoded"
   /\ LET x == o   w == Ws(o)
-         dyn == EncTags(o, mem.P, AllTags(o))
+         dyn == mem.dyn
          nload == Len(mem.loads)
          segs == [j \in 1..nload |-> Seg(N(1), N(IF j = 1 THEN 5 ELSE 6), N(mem.loads[j].off), W(mem.loads[j].va), W(mem.loads[j].va),
                                           N(mem.loads[j].fsz), N(mem.loads[j].msz), N(4096))]
@@ -503,7 +515,7 @@ Next ==
   \/ \E i \in FreeIds : AddTag(i)
   \/ \E id \in SymIds : AddSymbol(id)
   \/ \E so \in 1..(MaxSyms + 1) : Build(so)
-  \/ PlaceTables \/ Addresses \/ Encode
+  \/ PlaceTables \/ Segments \/ Addresses \/ EncodeArray \/ Encode
   \/ \E v \in {"sec", "seg"} : StartRead(v)
   \/ ScanTag \/ SelectStrtab \/ ResolveStrings \/ CountSymbols \/ ReadSymbols \/ Reset
 Spec == Init /\ [][Next]_vars
